@@ -284,6 +284,11 @@ _ADAPTORS = {
 }
 
 
+# iterator consumers that are loops: name -> does the closure's answer end the loop early?
+_ITER_LOOPS = {
+    'core::iter::traits::iterator::Iterator::for_each': False,
+    'core::iter::traits::iterator::Iterator::try_for_each': True,
+}
 _ALIAS = {}
 
 
@@ -319,7 +324,16 @@ def inline_closure_calls(F, body, bodies=None, depth=0, direct=True, changed=())
             fn_ = str((t_.get('f') or {}).get('fn') or '')
             if fn_ in _ADAPTORS:
                 ad.append(i)
-    if not sites and not tw and not ad:
+    # `iter.for_each(|x| ..)` / `iter.try_for_each(|x| ..)` in a body that had helpers spliced in: written out as the loop it stands for
+    fe = []
+    if direct:
+        for i, blk in enumerate(body['blocks']):
+            t_ = blk['t']
+            if t_.get('k') != 'call' or len(t_.get('args') or ()) != 2 or not isinstance(t_.get('t'), int) or t_['args'][0].get('k') not in ('cp', 'mv') or (t_.get('dst') or {}).get('p'):
+                continue
+            if str((t_.get('f') or {}).get('fn') or '') in _ITER_LOOPS:
+                fe.append(i)
+    if not sites and not tw and not ad and not fe:
         return body
     from .core import B as _B
     W = _B(body)
@@ -380,6 +394,23 @@ def inline_closure_calls(F, body, bodies=None, depth=0, direct=True, changed=())
             continue
         o[1]['expanded'] = True
         todo.append((i, d, cb, ('adaptor', t['f']['fn']), o[1]))
+    for i in fe:
+        t = body['blocks'][i]['t']
+        try:
+            o = W.origin(t['args'][1])
+        except Exception:
+            continue
+        by_ref_ = False
+        if o and o[0] == 'ref' and len(o) > 1 and isinstance(o[1], tuple):
+            o, by_ref_ = o[1], True
+        if not (o and o[0] == 'agg' and isinstance(o[1], dict) and o[1].get('ak') == 'closure'):
+            continue
+        d = o[1]['def']
+        cb = _closure_body(F, bodies, d)
+        if cb is None or cb.get('argc', 1) != 2 or len(cb['blocks']) > 60 or d == body['path']:
+            continue
+        o[1]['expanded'] = True
+        todo.append((i, d, cb, ('loop', t['f']['fn']), o[1]))
     if not todo:
         return body
     nb = dict(body)
@@ -393,10 +424,11 @@ def inline_closure_calls(F, body, bodies=None, depth=0, direct=True, changed=())
         bo = len(nb['blocks'])
         nb['locals'] = nb['locals'] + [dict(l_) for l_ in cb['locals']]
         then_with = (n_par == 'then_with')
-        adaptor = n_par[1] if isinstance(n_par, tuple) else None
-        if then_with or adaptor:
+        adaptor = n_par[1] if isinstance(n_par, tuple) and n_par[0] == 'adaptor' else None
+        loop = n_par[1] if isinstance(n_par, tuple) and n_par[0] == 'loop' else None
+        if then_with or adaptor or loop:
             n_par = 0
-        env = copy.deepcopy(t['args'][1 if (then_with or adaptor) else 0])
+        env = copy.deepcopy(t['args'][1 if (then_with or adaptor or loop) else 0])
         if env.get('k') == 'mv':
             env['k'] = 'cp'
         pre = [{'k': '=', 'pl': {'l': lo + 1, 'p': None}, 'rv': {'k': 'use', 'op': env}, 'ln': t.get('ln'), 'inl': d}]
@@ -429,7 +461,18 @@ def inline_closure_calls(F, body, bodies=None, depth=0, direct=True, changed=())
                 return [fix(v2) for v2 in x]
             return x
         ret_to, unw_to, dst = t['t'], t.get('u'), t['dst']
-        if adaptor:
+        if loop:
+            ncb = len(cb['blocks'])
+            H, SW, BODY, DONE, EXIT = bo + ncb, bo + ncb + 1, bo + ncb + 2, bo + ncb + 3, bo + ncb + 4
+            item_ty = str((cb['locals'][2] if len(cb['locals']) > 2 else {}).get('ty') or '?')
+            it_l = len(nb['locals'])
+            nb['locals'] = nb['locals'] + [{'ty': str((t.get('aty') or ['?'])[0]), 'n': None}, {'ty': '&mut ' + str((t.get('aty') or ['?'])[0]), 'n': None},
+                                           {'ty': 'core::option::Option<%s>' % item_ty, 'n': None}, {'ty': 'isize', 'n': None}, {'ty': 'isize', 'n': None}]
+            ref_l, nx_l, d1_l, d2_l = it_l + 1, it_l + 2, it_l + 3, it_l + 4
+            pre.append({'k': '=', 'pl': {'l': it_l, 'p': None}, 'rv': {'k': 'use', 'op': copy.deepcopy(t['args'][0])}, 'ln': t.get('ln'), 'inl': d})
+            blk['s'] = blk['s'] + pre
+            blk['t'] = {'k': 'goto', 't': H, 'ln': t.get('ln'), 'inl': d}
+        elif adaptor:
             adt_, run_var, run_vi, wrap = _ADAPTORS[adaptor]
             # the closure's parameter is the payload of the variant it runs on
             src = copy.deepcopy(t['args'][0]['pl'])
@@ -457,7 +500,14 @@ def inline_closure_calls(F, body, bodies=None, depth=0, direct=True, changed=())
         for cblk in cb['blocks']:
             ss = [fix(_ren(s_, lo, bo)) for s_ in cblk['s']]
             ct = cblk['t']
-            if ct['k'] == 'ret':
+            if ct['k'] == 'ret' and loop:
+                if _ITER_LOOPS[loop]:
+                    # try_for_each: go round again while the closure answers Ok / Continue, leave with its answer otherwise
+                    ss.append({'k': '=', 'pl': {'l': d2_l, 'p': None}, 'rv': {'k': 'discr', 'pl': {'l': lo, 'p': None}, 'ty': str(cb['locals'][0].get('ty') or '?')}, 'ln': t.get('ln'), 'inl': d})
+                    nt = {'k': 'switch', 'd': {'k': 'mv', 'pl': {'l': d2_l, 'p': None}}, 'dty': 'isize', 'cases': [[0, H]], 'else': EXIT, 'ln': ct.get('ln'), 'inl': d}
+                else:
+                    nt = {'k': 'goto', 't': H, 'ln': ct.get('ln'), 'inl': d}
+            elif ct['k'] == 'ret':
                 if adaptor and _ADAPTORS[adaptor][3]:
                     adt_, run_var, run_vi, wrap = _ADAPTORS[adaptor]
                     ss.append({'k': '=', 'pl': copy.deepcopy(dst), 'rv': {'k': 'agg', 'ak': 'adt', 'adt': adt_, 'var': run_var, 'vi': run_vi, 'fn': ['0'],
@@ -470,6 +520,29 @@ def inline_closure_calls(F, body, bodies=None, depth=0, direct=True, changed=())
             else:
                 nt = fix(_ren_term(ct, lo, bo))
             nb['blocks'].append({'s': ss, 't': nt})
+        if loop:
+            ln_ = t.get('ln')
+            # H: next item
+            nb['blocks'].append({'s': [{'k': '=', 'pl': {'l': ref_l, 'p': None}, 'rv': {'k': 'ref', 'mut': True, 'pl': {'l': it_l, 'p': None}}, 'ln': ln_, 'inl': d}],
+                                 't': {'k': 'call', 'f': {'k': 'c', 'fn': 'core::iter::traits::iterator::Iterator::next', 'ty': '?', 'ga': [str((t.get('aty') or ['?'])[0])]},
+                                       'args': [{'k': 'mv', 'pl': {'l': ref_l, 'p': None}}], 'aty': ['&mut ' + str((t.get('aty') or ['?'])[0])], 'dst': {'l': nx_l, 'p': None}, 't': SW, 'u': unw_to,
+                                       'ln': ln_, 'inl': d}})
+            # SW: Some -> the closure on the item, None -> done
+            nb['blocks'].append({'s': [{'k': '=', 'pl': {'l': d1_l, 'p': None}, 'rv': {'k': 'discr', 'pl': {'l': nx_l, 'p': None}, 'ty': 'core::option::Option<%s>' % item_ty}, 'ln': ln_, 'inl': d}],
+                                 't': {'k': 'switch', 'd': {'k': 'mv', 'pl': {'l': d1_l, 'p': None}}, 'dty': 'isize', 'cases': [[0, DONE], [1, BODY]], 'else': DONE, 'ln': ln_, 'inl': d}})
+            nb['blocks'].append({'s': [{'k': '=', 'pl': {'l': lo + 2, 'p': None}, 'rv': {'k': 'use', 'op': {'k': 'mv', 'pl': {'l': nx_l, 'p': [{'dc': 1, 'n': 'Some'}, {'f': 0, 'n': '0'}]}}}, 'ln': ln_, 'inl': d}],
+                                 't': {'k': 'goto', 't': bo, 'ln': ln_, 'inl': d}})
+            if _ITER_LOOPS[loop]:
+                rty_ = str(cb['locals'][0].get('ty') or '')
+                if rty_.startswith('core::result::Result<'):
+                    done_rv = {'k': 'agg', 'ak': 'adt', 'adt': 'core::result::Result', 'var': 'Ok', 'vi': 0, 'fn': ['0'], 'ops': [{'k': 'c', 'ty': '()'}]}
+                else:
+                    done_rv = {'k': 'agg', 'ak': 'adt', 'adt': 'core::ops::control_flow::ControlFlow', 'var': 'Continue', 'vi': 0, 'fn': ['0'], 'ops': [{'k': 'c', 'ty': '()'}]}
+            else:
+                done_rv = {'k': 'use', 'op': {'k': 'c', 'ty': '()'}}
+            nb['blocks'].append({'s': [{'k': '=', 'pl': copy.deepcopy(dst), 'rv': done_rv, 'ln': ln_, 'inl': d}], 't': {'k': 'goto', 't': ret_to, 'ln': ln_, 'inl': d}})
+            nb['blocks'].append({'s': [{'k': '=', 'pl': copy.deepcopy(dst), 'rv': {'k': 'use', 'op': {'k': 'mv', 'pl': {'l': lo, 'p': None}}}, 'ln': ln_, 'inl': d}],
+                                 't': {'k': 'goto', 't': ret_to, 'ln': ln_, 'inl': d}})
         if adaptor:
             # the other variant goes through with its payload (written as the literal it is, so that what follows knows the variant)
             adt_, run_var, run_vi, wrap = _ADAPTORS[adaptor]
